@@ -265,7 +265,8 @@ def case_learn_from_constructor(n, a, iv_name, iv, steps, after_reset=False):
             expQ = lift(q0)
             for s in range(steps):
                 agent.learn(0, a, rewards[s], 0)
-                step = z3.If(alpha.t == -1, 1 / z3.RealVal(s + 1), alpha.t)
+                # the sample-average step is the binary64 quotient 1/count the code computes (1/3 is not exact), taken as the rational it is
+                step = z3.If(alpha.t == -1, lift(1 / (s + 1)), alpha.t)
                 expQ = expQ + step * (rewards[s].t - expQ)
             ctx.prove(lift(agent.Q[a]) == expQ, "learn_update", f"{name}: estimate after {steps} update(s) from the constructed state")
             ctx.prove(z3.And(*[lift(agent.Q[i]) == lift(q0) for i in range(n) if i != a], z3.BoolVal(len(agent.Q) == n)), "learn_frame", name)
